@@ -1,3 +1,658 @@
-//! C25 — not built yet.
-pub const BUILT: bool = false;
-pub fn run(_rep: &mut vx::Report) {}
+//! C25 — single-byte text encodings match the normative tables (ISO 32000-1 Annex D).
+//!
+//! The space is genuinely complete: every byte 0x00-0xFF and every Unicode scalar value
+//! (0x110000 code points minus the 2048 surrogates, which a Rust `char`/`&str` cannot carry)
+//! for StandardEncoding, MacRomanEncoding, WinAnsiEncoding and PDFDocEncoding, through every
+//! public entry point of the library that applies one of these tables:
+//!   * `text::TextEncoding::{decode, encode, encode_strict}` (all four encodings) — the
+//!     crate-private `winansi_encode_char` / `macroman_encode_char` are exactly what
+//!     `encode_strict` applies per character, and `winansi_decode_char` is exactly what
+//!     `PdfString::to_text` applies per byte, so they are covered through those;
+//!   * `parser::objects::PdfString::to_text` (text strings without BOM = PDFDocEncoding);
+//!   * `parser::encoding::EnhancedDecoder::decode_with_encoding` lenient and strict, and
+//!     `decode_text_with_encoding` (Windows1252 -> WinAnsi, MacRoman, PdfDocEncoding).
+//! Sections:
+//!   `decode`     (entry point, encoding) x all 256 single-byte inputs vs the Annex D cell;
+//!   `encode`     (encode_strict | encode, encoding, plane) x all 65536 code points of the plane;
+//!   `roundtrip`  encoding: decode(encode(c)) = c on the whole repertoire and
+//!                encode(decode(b)) = b on every assigned code, library functions only;
+//!   `extract`    simple font with /Encoding /WinAnsiEncoding | /MacRomanEncoding |
+//!                /StandardEncoding (name, or dictionary with /BaseEncoding) x every byte, shown
+//!                between `A` and `B` on a page crafted by refpdf::builder and read back with
+//!                `TextExtractor::extract_from_page` (the private tables of text/extraction_cmap.rs);
+//!   `pairs`      every 2-byte input (65536 per entry point/encoding): decoding is byte-wise;
+//!                every pair over repertoire + 3 outsiders: encoding is character-wise and
+//!                encode_strict reports the first unencodable character.
+//! Oracle: refpdf::encodings (Annex D Table D.2 by glyph name + AGLFN; cross-validated at
+//! setup against Python's cp1252 / mac_roman codecs, refpdf::textstr and a second
+//! transcription of StandardEncoding). Cells the table leaves unassigned are excluded from
+//! decode comparison and counted (note `excluded_cells`); nothing is guessed.
+//!
+//! Violation keys name the defect: when the complete observed table of an entry point equals
+//! a recognisable wrong model (UTF-8 pass-through, Windows-1252 used for PDFDocEncoding,
+//! Latin-1, Mac OS Roman, a table that stops at 0xAF, ...) the key names that model; any other
+//! deviation — including one more wrong cell on top of a known model — gives `...-mismatch`.
+use oxidize_pdf::parser::encoding::{CharacterDecoder, EncodingType, EnhancedDecoder};
+use oxidize_pdf::parser::objects::PdfString;
+use oxidize_pdf::text::TextEncoding;
+use refpdf::encodings::{self as re, Cell, Enc};
+use serde_json::json;
+use vx::{Ctx, Explore, Report};
+
+pub const BUILT: bool = true;
+
+fn lib_enc(e: Enc) -> TextEncoding {
+    match e {
+        Enc::Standard => TextEncoding::StandardEncoding,
+        Enc::MacRoman => TextEncoding::MacRomanEncoding,
+        Enc::WinAnsi => TextEncoding::WinAnsiEncoding,
+        Enc::PdfDoc => TextEncoding::PdfDocEncoding,
+    }
+}
+fn short(e: Enc) -> &'static str {
+    match e {
+        Enc::Standard => "standard",
+        Enc::MacRoman => "macroman",
+        Enc::WinAnsi => "winansi",
+        Enc::PdfDoc => "pdfdoc",
+    }
+}
+fn parser_enc(e: Enc) -> EncodingType {
+    match e {
+        Enc::WinAnsi => EncodingType::Windows1252,
+        Enc::MacRoman => EncodingType::MacRoman,
+        Enc::PdfDoc => EncodingType::PdfDocEncoding,
+        Enc::Standard => unreachable!("parser::encoding has no StandardEncoding"),
+    }
+}
+
+#[derive(Clone, Copy, PartialEq, Eq, Debug, Hash)]
+enum Dec {
+    /// TextEncoding::decode
+    TextEncoding,
+    /// PdfString::to_text (PDFDocEncoding when there is no BOM)
+    ToText,
+    /// EnhancedDecoder::decode_with_encoding(.., lenient = true) (= decode_text_with_encoding)
+    ParserLenient,
+    /// EnhancedDecoder::decode_with_encoding(.., lenient = false)
+    ParserStrict,
+}
+impl Dec {
+    fn short(self) -> &'static str {
+        match self {
+            Dec::TextEncoding => "textencoding",
+            Dec::ToText => "pdfstring-to-text",
+            Dec::ParserLenient => "parser-lenient",
+            Dec::ParserStrict => "parser-strict",
+        }
+    }
+}
+
+const DEC_POINTS: [(Dec, Enc); 11] = [
+    (Dec::TextEncoding, Enc::Standard),
+    (Dec::TextEncoding, Enc::MacRoman),
+    (Dec::TextEncoding, Enc::WinAnsi),
+    (Dec::TextEncoding, Enc::PdfDoc),
+    (Dec::ToText, Enc::PdfDoc),
+    (Dec::ParserLenient, Enc::MacRoman),
+    (Dec::ParserLenient, Enc::WinAnsi),
+    (Dec::ParserLenient, Enc::PdfDoc),
+    (Dec::ParserStrict, Enc::MacRoman),
+    (Dec::ParserStrict, Enc::WinAnsi),
+    (Dec::ParserStrict, Enc::PdfDoc),
+];
+
+thread_local! {
+    static DECODER: EnhancedDecoder = EnhancedDecoder::new();
+}
+
+/// Run a decode entry point. Ok(None) = the entry point reported an error for the input.
+fn lib_decode(d: Dec, e: Enc, bytes: &[u8]) -> Result<Option<String>, String> {
+    vx::guard(|| match d {
+        Dec::TextEncoding => Some(lib_enc(e).decode(bytes)),
+        Dec::ToText => Some(PdfString::new(bytes.to_vec()).to_text()),
+        Dec::ParserLenient => {
+            // the convenience function and the trait method must agree
+            let a = oxidize_pdf::parser::encoding::decode_text_with_encoding(bytes, parser_enc(e)).ok();
+            let b = DECODER.with(|dec| dec.decode_with_encoding(bytes, parser_enc(e), true).ok());
+            if a != b {
+                panic!("decode_text_with_encoding {a:?} != decode_with_encoding(lenient) {b:?}");
+            }
+            a
+        }
+        Dec::ParserStrict => DECODER.with(|dec| dec.decode_with_encoding(bytes, parser_enc(e), false).ok()),
+    })
+}
+
+// ---- recognisable wrong decode models (byte -> what that model would answer; None = error)
+
+fn cp1252_c1(b: u8) -> char {
+    match re::decode(Enc::WinAnsi, b) {
+        Cell::Def(c) => c,
+        Cell::Undef => b as char,
+    }
+}
+fn mac_until_af(b: u8) -> Option<char> {
+    match b {
+        0..=0x7F => Some(b as char),
+        0x80..=0xAF => Some(re::macos_roman(b)),
+        _ => None,
+    }
+}
+const DEC_MODELS: [&str; 6] = ["utf8-lossy", "windows-1252", "latin-1", "mac-os-roman", "mac-table-ends-at-AF-then-U+FFFD", "mac-table-ends-at-AF-then-error"];
+fn dec_model(i: usize, b: u8) -> Option<String> {
+    let c = match i {
+        0 => Some(if b < 0x80 { b as char } else { '\u{FFFD}' }),
+        1 => Some(cp1252_c1(b)),
+        2 => Some(b as char),
+        3 => Some(re::macos_roman(b)),
+        4 => Some(mac_until_af(b).unwrap_or('\u{FFFD}')),
+        _ => mac_until_af(b),
+    };
+    c.map(|c| c.to_string())
+}
+
+fn ucp(s: &str) -> String {
+    s.chars().map(|c| format!("U+{:04X}", c as u32)).collect::<Vec<_>>().join(" ")
+}
+
+fn decode_cell_ok(e: Enc, b: u8, got: &Option<String>) -> bool {
+    match re::decode(e, b) {
+        Cell::Undef => true,
+        Cell::Def(c) => match got {
+            Some(s) => {
+                let mut it = s.chars();
+                match (it.next(), it.next()) {
+                    (Some(g), None) => g == c || re::decode_alternatives(e, b).contains(&g),
+                    _ => false,
+                }
+            }
+            None => false,
+        },
+    }
+}
+
+// ---- encode side
+
+#[derive(Clone, Copy, PartialEq, Eq, Debug, Hash)]
+enum EncEntry {
+    Strict,
+    Lossy,
+}
+impl EncEntry {
+    fn short(self) -> &'static str {
+        match self {
+            EncEntry::Strict => "encode_strict",
+            EncEntry::Lossy => "encode",
+        }
+    }
+}
+
+/// Is `Ok([b])` for a character outside the repertoire a consistent extension (the table
+/// leaves `b` unassigned and the library's own decoder reads `b` back as `c`)?
+fn consistent_extension(e: Enc, c: char, bytes: &[u8]) -> bool {
+    bytes.len() == 1 && re::decode(e, bytes[0]) == Cell::Undef && {
+        let back = lib_enc(e).decode(bytes);
+        let mut it = back.chars();
+        it.next() == Some(c) && it.next().is_none()
+    }
+}
+
+/// verdict on encode_strict's answer for one character: Ok or a short failure class
+fn strict_verdict(e: Enc, c: char, got: &Result<Vec<u8>, char>) -> Result<(), &'static str> {
+    match (re::encode(e, c), got) {
+        (Some(b), Ok(v)) if v.as_slice() == [b] => Ok(()),
+        (Some(_), Ok(_)) => Err("repertoire character encoded to the wrong code"),
+        (Some(_), Err(_)) => Err("repertoire character refused"),
+        (None, Err(ch)) if *ch == c => Ok(()),
+        (None, Err(_)) => Err("wrong character reported"),
+        (None, Ok(v)) if consistent_extension(e, c, v) => Ok(()),
+        (None, Ok(_)) => Err("character outside the repertoire silently encoded to a code that means something else"),
+    }
+}
+
+fn lossy_verdict(e: Enc, c: char, got: &[u8], strict: &Result<Vec<u8>, char>) -> Result<(), &'static str> {
+    match re::encode(e, c) {
+        Some(b) if got == [b] => Ok(()),
+        Some(_) => Err("repertoire character not encoded to its code"),
+        None => match strict {
+            // not encodable: the lossy path may substitute, provided the strict path reports it
+            Err(ch) if *ch == c => Ok(()),
+            Err(_) => Err("strict path reports a different character"),
+            Ok(v) if v.as_slice() == got && consistent_extension(e, c, got) => Ok(()),
+            Ok(_) => Err("character outside the repertoire silently replaced and not reported by encode_strict"),
+        },
+    }
+}
+
+const ENC_MODELS: [&str; 3] = ["ascii-pass-through", "utf8-pass-through", "mac-table-ends-at-AF"];
+fn mac_encode_until_af(c: char) -> Option<u8> {
+    if (c as u32) < 0x80 {
+        return Some(c as u8);
+    }
+    (0x80u8..=0xAF).find(|&b| re::macos_roman(b) == c)
+}
+/// model prediction for encode_strict
+fn strict_model(i: usize, c: char) -> Option<Result<Vec<u8>, char>> {
+    match i {
+        0 => Some(if (c as u32) < 0x80 { Ok(vec![c as u8]) } else { Err(c) }),
+        2 => Some(mac_encode_until_af(c).map(|b| vec![b]).ok_or(c)),
+        _ => None,
+    }
+}
+/// model prediction for the lossy encode
+fn lossy_model(i: usize, c: char) -> Option<Vec<u8>> {
+    match i {
+        1 => Some(c.to_string().into_bytes()),
+        2 => Some(vec![mac_encode_until_af(c).unwrap_or(b'?')]),
+        _ => None,
+    }
+}
+
+fn scalars(plane: u32) -> impl Iterator<Item = char> {
+    (plane << 16..(plane + 1) << 16).filter_map(char::from_u32)
+}
+
+pub fn run(rep: &mut Report) {
+    rep.rule(
+        "enumerated case = (entry point, encoding) with all 256 one-byte inputs inside, or (encode entry, \
+         encoding, plane) with all 65536 code points of the plane inside, or (entry, encoding, first byte) with \
+         all 256 second bytes inside; non-trivial = the case contains at least one cell / character the Annex D \
+         table assigns; distinct = distinct (entry, encoding, block) and distinct observed result tables",
+    );
+    rep.assume("Annex D Table D.2 transcribed by glyph name with AGLFN Unicode values (refpdf::encodings); validated at setup against Python codecs cp1252 and mac_roman on every shared cell, against refpdf::textstr for PDFDocEncoding and against a second, code-ordered transcription for StandardEncoding");
+    rep.assume("cells a table leaves unassigned (controls 0x00-0x1F; WinAnsi 7F 81 8D 8F 90 9D, which the footnote maps to bullet 'subject to future reassignment'; the 15 Mac OS Roman codes MacRomanEncoding lacks; the gaps of StandardEncoding; PDFDoc 7F 9F AD and 00-17 except HT LF CR) are excluded from decode comparison and counted; encoding a character outside the repertoire to such a cell is accepted when the library's own decoder reads it back");
+    rep.assume("WinAnsi 0xA0 / MacRoman 0xCA (footnote: nonbreaking space) accept U+00A0 or U+0020, WinAnsi 0xAD (footnote: soft hyphen) accepts U+00AD or U+002D");
+    rep.assume("a lossy encode() may substitute an unencodable character only if encode_strict() reports that character");
+    rep.assume("surrogate code points D800-DFFF cannot be passed through the &str/char API and are not inputs: 0x110000 - 2048 = 1 112 064 scalar values per encoding");
+    rep.note(
+        "excluded_cells",
+        json!(re::ALL.iter().map(|e| (e.name().to_string(), json!({
+            "unassigned_codes": re::undefined_codes(*e).len(),
+            "assigned_codes": re::repertoire(*e).len(),
+        }))).collect::<serde_json::Map<_, _>>()),
+    );
+    rep.note("complete", json!("all 256 bytes x 11 decode entry points, all 1 112 064 scalar values x 4 encodings x 2 encode entry points, all 65 536 byte pairs x 11 decode entry points — exhaustive, nothing sampled, in both tiers"));
+
+    // ---------------------------------------------------------------- decode
+    rep.explore("decode", Explore::full(), |c: &mut Ctx| {
+        let (d, e) = *c.pick_from("entry-encoding", &DEC_POINTS);
+        c.input(vx::h64(&(d, e)));
+        c.nontrivial();
+        let mut got: Vec<Option<String>> = Vec::with_capacity(256);
+        for b in 0u16..256 {
+            match lib_decode(d, e, &[b as u8]) {
+                Ok(g) => got.push(g),
+                Err(p) => {
+                    c.fail(format!("C25/{}-{}-decode-panics", d.short(), short(e)), format!("byte 0x{b:02X}: {p}"));
+                    return;
+                }
+            }
+        }
+        c.add_evaluations(256);
+        c.outcome(vx::h64(&got));
+        let bad: Vec<u8> = (0u16..256).map(|b| b as u8).filter(|&b| !decode_cell_ok(e, b, &got[b as usize])).collect();
+        let undef = re::undefined_codes(e).len();
+        c.sample(json!({"entry": d.short(), "encoding": e.name(), "bytes": "00..=FF", "assigned_cells": 256 - undef,
+                        "excluded_unassigned_cells": undef, "wrong_cells": bad.len()}));
+        if bad.is_empty() {
+            return;
+        }
+        // recognise a known wrong model: it must reproduce the library's answer on every assigned cell
+        let model = (0..DEC_MODELS.len()).find(|&i| {
+            (0u16..256).map(|b| b as u8).filter(|&b| re::decode(e, b) != Cell::Undef).all(|b| dec_model(i, b) == got[b as usize])
+        });
+        let key = match model {
+            Some(i) => format!("C25/{}-{}-decodes-as-{}", d.short(), short(e), DEC_MODELS[i]),
+            None => format!("C25/{}-{}-decode-mismatch", d.short(), short(e)),
+        };
+        let first: Vec<String> = bad
+            .iter()
+            .take(6)
+            .map(|&b| {
+                let Cell::Def(w) = re::decode(e, b) else { unreachable!() };
+                format!(
+                    "0x{b:02X} want U+{:04X} ({}) got {}",
+                    w as u32,
+                    re::glyph_name(e, b).unwrap_or("?"),
+                    got[b as usize].as_deref().map(ucp).unwrap_or_else(|| "error".into())
+                )
+            })
+            .collect();
+        c.fail(key, format!("{} {}: {} of {} assigned cells wrong; first: {}", d.short(), e.name(), bad.len(), 256 - undef, first.join("; ")));
+    });
+
+    // ---------------------------------------------------------------- encode
+    const ENTRIES: [EncEntry; 2] = [EncEntry::Strict, EncEntry::Lossy];
+    rep.explore("encode", Explore::full(), |c: &mut Ctx| {
+        let entry = *c.pick_from("entry", &ENTRIES);
+        let e = *c.pick_from("encoding", &re::ALL);
+        let plane = c.choose("plane", 17) as u32;
+        c.input(vx::h64(&(entry, e, plane)));
+        if plane == 0 {
+            c.nontrivial();
+        }
+        let le = lib_enc(e);
+        let mut oh = 0u64;
+        let mut n = 0u64;
+        let mut bad: Vec<(char, &'static str, String)> = Vec::new();
+        let mut nbad = 0usize;
+        let mut strict_tab: Vec<Result<Vec<u8>, char>> = Vec::new();
+        let mut lossy_tab: Vec<Vec<u8>> = Vec::new();
+        let mut buf = [0u8; 4];
+        for ch in scalars(plane) {
+            let s: &str = ch.encode_utf8(&mut buf);
+            let strict = le.encode_strict(s);
+            let verdict = match entry {
+                EncEntry::Strict => {
+                    let v = strict_verdict(e, ch, &strict);
+                    oh = vx::hmix(oh, vx::h64(&strict));
+                    if v.is_err() && bad.len() < 6 {
+                        bad.push((ch, v.unwrap_err(), format!("{strict:02X?}")));
+                    }
+                    if plane == 0 {
+                        strict_tab.push(strict);
+                    }
+                    v
+                }
+                EncEntry::Lossy => {
+                    let lossy = le.encode(s);
+                    let v = lossy_verdict(e, ch, &lossy, &strict);
+                    oh = vx::hmix(oh, vx::hbytes(&lossy));
+                    if v.is_err() && bad.len() < 6 {
+                        bad.push((ch, v.unwrap_err(), format!("{lossy:02X?} (encode_strict: {strict:02X?})")));
+                    }
+                    if plane == 0 {
+                        lossy_tab.push(lossy);
+                    }
+                    v
+                }
+            };
+            if verdict.is_err() {
+                nbad += 1;
+            }
+            n += 1;
+        }
+        c.add_evaluations(n);
+        c.outcome(oh);
+        c.sample(json!({"entry": entry.short(), "encoding": e.name(), "code_points": format!("U+{:04X}..=U+{:04X}", plane << 16, (plane << 16) + 0xFFFF),
+                        "scalar_values": n, "wrong": nbad}));
+        if nbad == 0 {
+            return;
+        }
+        // recognise a known wrong model over the complete plane 0 table
+        let model = if plane == 0 {
+            (0..ENC_MODELS.len()).find(|&i| match entry {
+                EncEntry::Strict => scalars(0).zip(strict_tab.iter()).all(|(ch, g)| strict_model(i, ch).as_ref() == Some(g)),
+                EncEntry::Lossy => scalars(0).zip(lossy_tab.iter()).all(|(ch, g)| lossy_model(i, ch).as_ref() == Some(g)),
+            })
+        } else {
+            None
+        };
+        let key = match model {
+            Some(i) => format!("C25/textencoding-{}-{}-is-{}", short(e), entry.short(), ENC_MODELS[i]),
+            None => format!("C25/textencoding-{}-{}-mismatch", short(e), entry.short()),
+        };
+        let first: Vec<String> = bad
+            .iter()
+            .map(|(ch, why, got)| {
+                format!("U+{:04X} want {} got {got}: {why}", *ch as u32, re::encode(e, *ch).map(|b| format!("[{b:02X}]")).unwrap_or_else(|| "reported as unencodable".into()))
+            })
+            .collect();
+        c.fail(key, format!("{} {} plane {plane}: {nbad} of {n} code points wrong; first: {}", entry.short(), e.name(), first.join("; ")));
+    });
+
+    // ---------------------------------------------------------------- roundtrip (library only)
+    rep.explore("roundtrip", Explore::full(), |c: &mut Ctx| {
+        let e = *c.pick_from("encoding", &re::ALL);
+        c.input(vx::h64(&e));
+        c.nontrivial();
+        let le = lib_enc(e);
+        let rep_ = re::repertoire(e);
+        // characters: decode(encode(c)) == c ; codes: encode(decode(b)) == [b]
+        let mut bad_chars: Vec<char> = Vec::new();
+        let mut bad_codes: Vec<u8> = Vec::new();
+        for (b, ch) in &rep_ {
+            let enc = le.encode(&ch.to_string());
+            if le.decode(&enc) != ch.to_string() {
+                bad_chars.push(*ch);
+            }
+            let dec = le.decode(&[*b]);
+            if le.encode(&dec) != [*b] {
+                bad_codes.push(*b);
+            }
+        }
+        c.add_evaluations(2 * rep_.len() as u64);
+        c.outcome(vx::h64(&(&bad_chars, &bad_codes)));
+        c.sample(json!({"encoding": e.name(), "repertoire": rep_.len(), "chars_not_round_tripping": bad_chars.len(), "codes_not_round_tripping": bad_codes.len()}));
+        if bad_chars.is_empty() && bad_codes.is_empty() {
+            return;
+        }
+        // known signatures: exactly the assigned codes above 0xAF (MacRoman table that stops
+        // there); exactly the assigned codes above 0x7F (UTF-8 pass-through: a lone high byte
+        // is not UTF-8, while every character survives as its UTF-8 bytes)
+        let above = |lim: u8| rep_.iter().filter(|(b, _)| *b > lim).map(|(b, _)| *b).collect::<Vec<u8>>();
+        let above_chars = |lim: u8| rep_.iter().filter(|(b, _)| *b > lim).map(|(_, ch)| *ch).collect::<Vec<char>>();
+        let key = if bad_codes == above(0xAF) && bad_chars == above_chars(0xAF) {
+            format!("C25/textencoding-{}-roundtrip-lost-above-AF", short(e))
+        } else if bad_codes == above(0x7F) && bad_chars.is_empty() {
+            format!("C25/textencoding-{}-roundtrip-codes-above-7F-lost-utf8", short(e))
+        } else {
+            format!("C25/textencoding-{}-roundtrip-mismatch", short(e))
+        };
+        c.fail(
+            key,
+            format!(
+                "{}: {} repertoire characters do not survive decode(encode(c)) (first {:?}); {} assigned codes do not survive encode(decode(b)) (first {:02X?})",
+                e.name(), bad_chars.len(), bad_chars.iter().take(4).map(|ch| format!("U+{:04X}", *ch as u32)).collect::<Vec<_>>(),
+                bad_codes.len(), &bad_codes[..bad_codes.len().min(6)]
+            ),
+        );
+    });
+
+    // ---------------------------------------------------------------- pairs: decode is byte-wise
+    rep.explore("pairs-decode", Explore::full(), |c: &mut Ctx| {
+        let (d, e) = *c.pick_from("entry-encoding", &DEC_POINTS);
+        let b1 = c.choose("first-byte", 256) as u8;
+        c.input(vx::h64(&(d, e, b1)));
+        c.nontrivial();
+        let single: Vec<Option<String>> = (0u16..256).map(|b| lib_decode(d, e, &[b as u8]).unwrap_or(None)).collect();
+        let mut oh = 0u64;
+        let mut bad: Vec<(u8, Option<String>, Option<String>)> = Vec::new();
+        let mut nbad = 0;
+        let mut all_utf8 = true;
+        for b2 in 0u16..256 {
+            let b2 = b2 as u8;
+            // a text string starting FE FF is UTF-16BE with a byte order mark, not PDFDocEncoding
+            if d == Dec::ToText && b1 == 0xFE && b2 == 0xFF {
+                continue;
+            }
+            let got = match lib_decode(d, e, &[b1, b2]) {
+                Ok(g) => g,
+                Err(p) => {
+                    c.fail(format!("C25/{}-{}-decode-panics", d.short(), short(e)), format!("bytes {b1:02X} {b2:02X}: {p}"));
+                    return;
+                }
+            };
+            let want = match (&single[b1 as usize], &single[b2 as usize]) {
+                (Some(a), Some(b)) => Some(format!("{a}{b}")),
+                _ => None,
+            };
+            oh = vx::hmix(oh, vx::h64(&got));
+            if got != want {
+                nbad += 1;
+                if got.as_deref() != Some(&*String::from_utf8_lossy(&[b1, b2])) {
+                    all_utf8 = false;
+                }
+                if bad.len() < 4 {
+                    bad.push((b2, want, got));
+                }
+            }
+        }
+        c.add_evaluations(256);
+        c.outcome(oh);
+        c.sample(json!({"entry": d.short(), "encoding": e.name(), "first_byte": format!("{b1:02X}"), "second_bytes": "00..=FF", "not_bytewise": nbad}));
+        if nbad > 0 {
+            let key = if all_utf8 {
+                format!("C25/{}-{}-decodes-byte-pairs-as-utf8", d.short(), short(e))
+            } else {
+                format!("C25/{}-{}-decode-not-bytewise", d.short(), short(e))
+            };
+            let first: Vec<String> = bad
+                .iter()
+                .map(|(b2, w, g)| format!("{b1:02X} {b2:02X}: separately {} together {}", w.as_deref().map(ucp).unwrap_or("error".into()), g.as_deref().map(ucp).unwrap_or("error".into())))
+                .collect();
+            c.fail(key, format!("{} {}: {nbad} second bytes after {b1:02X} decode differently in a pair; first: {}", d.short(), e.name(), first.join("; ")));
+        }
+    });
+
+    // ---------------------------------------------------------------- text extraction with a simple font
+    const EXTRACT_ENCS: [Enc; 3] = [Enc::WinAnsi, Enc::MacRoman, Enc::Standard];
+    rep.explore("extract", Explore::full(), |c: &mut Ctx| {
+        let e = *c.pick_from("encoding", &EXTRACT_ENCS);
+        let as_dict = c.flag("encoding-as-dictionary-with-BaseEncoding");
+        c.input(vx::h64(&(e, as_dict)));
+        c.nontrivial();
+        let mut got: Vec<Option<String>> = Vec::with_capacity(256);
+        for b in 0u16..256 {
+            match extract::shown_byte(e, as_dict, b as u8) {
+                Ok(t) => got.push(t),
+                Err(p) => {
+                    c.fail(format!("C25/extract-{}-fails", short(e)), format!("byte 0x{b:02X}: {p}"));
+                    return;
+                }
+            }
+        }
+        c.add_evaluations(256);
+        c.outcome(vx::h64(&got));
+        // comparable cells: assigned, and the character is visible (white space and the soft
+        // hyphen may legitimately be normalised by an extractor)
+        let comparable = |b: u8| matches!(re::decode(e, b), Cell::Def(ch) if !ch.is_whitespace() && ch != '\u{00AD}');
+        let bad: Vec<u8> = (0u16..256).map(|b| b as u8).filter(|&b| comparable(b) && !decode_cell_ok(e, b, &got[b as usize])).collect();
+        let ncomp = (0u16..256).filter(|b| comparable(*b as u8)).count();
+        c.sample(json!({"entry": "TextExtractor, simple font", "encoding": e.name(), "encoding_as_dictionary": as_dict, "bytes": "00..=FF",
+                        "compared_cells": ncomp, "excluded_cells": 256 - ncomp, "wrong_cells": bad.len()}));
+        if bad.is_empty() {
+            return;
+        }
+        let model = (0..extract::MODELS.len()).rev().find(|&i| (0u16..256).map(|b| b as u8).filter(|&b| comparable(b)).all(|b| Some(extract::model(i, b).to_string()) == got[b as usize]));
+        let key = match model {
+            Some(i) => format!("C25/extract-{}-decodes-as-{}", short(e), extract::MODELS[i]),
+            None => format!("C25/extract-{}-decode-mismatch", short(e)),
+        };
+        let first: Vec<String> = bad
+            .iter()
+            .take(6)
+            .map(|&b| {
+                let Cell::Def(w) = re::decode(e, b) else { unreachable!() };
+                format!("0x{b:02X} want U+{:04X} ({}) got {}", w as u32, re::glyph_name(e, b).unwrap_or("?"), got[b as usize].as_deref().map(ucp).unwrap_or_else(|| "nothing between A and B".into()))
+            })
+            .collect();
+        c.fail(key, format!("text extraction, font /Encoding {}{}: {} of {ncomp} compared cells wrong; first: {}", e.name(), if as_dict { " (as /BaseEncoding)" } else { "" }, bad.len(), first.join("; ")));
+    });
+
+    // ---------------------------------------------------------------- pairs: encode is character-wise
+    rep.explore("pairs-encode", Explore::full(), |c: &mut Ctx| {
+        let e = *c.pick_from("encoding", &re::ALL);
+        let mut chars: Vec<char> = re::repertoire(e).into_iter().map(|(_, ch)| ch).collect();
+        chars.extend(['\u{0100}', '\u{4E2D}', '\u{1F600}']);
+        let i1 = c.choose("first-char", chars.len());
+        let c1 = chars[i1];
+        c.input(vx::h64(&(e, c1)));
+        c.nontrivial();
+        let le = lib_enc(e);
+        let s1 = le.encode_strict(&c1.to_string());
+        let l1 = le.encode(&c1.to_string());
+        let mut oh = 0u64;
+        let mut nbad = 0;
+        let mut first = String::new();
+        for &c2 in &chars {
+            let pair: String = [c1, c2].iter().collect();
+            let s2 = le.encode_strict(&c2.to_string());
+            let l2 = le.encode(&c2.to_string());
+            let want_strict: Result<Vec<u8>, char> = match (&s1, &s2) {
+                (Err(ch), _) => Err(*ch),
+                (Ok(_), Err(ch)) => Err(*ch),
+                (Ok(a), Ok(b)) => Ok([a.as_slice(), b.as_slice()].concat()),
+            };
+            let want_lossy = [l1.as_slice(), l2.as_slice()].concat();
+            let gs = le.encode_strict(&pair);
+            let gl = le.encode(&pair);
+            oh = vx::hmix(oh, vx::h64(&(&gs, &gl)));
+            if gs != want_strict || gl != want_lossy {
+                nbad += 1;
+                if first.is_empty() {
+                    first = format!("U+{:04X} U+{:04X}: strict {gs:02X?} want {want_strict:02X?}; lossy {gl:02X?} want {want_lossy:02X?}", c1 as u32, c2 as u32);
+                }
+            }
+        }
+        c.add_evaluations(chars.len() as u64);
+        c.outcome(oh);
+        c.sample(json!({"encoding": e.name(), "first_char": format!("U+{:04X}", c1 as u32), "second_chars": chars.len(), "not_characterwise": nbad}));
+        if nbad > 0 {
+            c.fail(format!("C25/textencoding-{}-encode-not-characterwise", short(e)), format!("{}: {nbad} pairs; first {first}", e.name()));
+        }
+    });
+}
+
+/// One byte shown with a simple (Type1, non-embedded Helvetica) font whose /Encoding names a
+/// predefined encoding, extracted with the library's TextExtractor.
+mod extract {
+    use super::*;
+    use oxidize_pdf::parser::{PdfDocument, PdfReader};
+    use oxidize_pdf::text::TextExtractor;
+    use refpdf::builder::{FileBuilder, Revision, XrefForm};
+    use refpdf::syntax::Obj;
+    use std::io::Cursor;
+
+    pub const MODELS: [&str; 3] = ["windows-1252-with-ascii-double-quotes-at-93-94", "mac-table-ends-at-9F-then-latin-1", "latin-1"];
+    pub fn model(i: usize, b: u8) -> char {
+        match i {
+            0 => match b {
+                0x93 | 0x94 => '"',
+                _ => cp1252_c1(b),
+            },
+            1 => match b {
+                0x80..=0x9F => re::macos_roman(b),
+                _ => b as char,
+            },
+            _ => b as char,
+        }
+    }
+
+    fn build(e: Enc, as_dict: bool, b: u8) -> Vec<u8> {
+        let enc_name = Obj::name(e.name());
+        let encoding = if as_dict { Obj::dict(vec![("Type", Obj::name("Encoding")), ("BaseEncoding", enc_name)]) } else { enc_name };
+        let mut r = Revision::new(XrefForm::Table);
+        r.add(1, Obj::dict(vec![("Type", Obj::name("Catalog")), ("Pages", Obj::Ref(2, 0))]));
+        r.add(2, Obj::dict(vec![("Type", Obj::name("Pages")), ("Kids", Obj::Array(vec![Obj::Ref(3, 0)])), ("Count", Obj::Int(1))]));
+        r.add(
+            3,
+            Obj::dict(vec![
+                ("Type", Obj::name("Page")),
+                ("Parent", Obj::Ref(2, 0)),
+                ("MediaBox", Obj::Array(vec![Obj::Int(0), Obj::Int(0), Obj::Int(612), Obj::Int(792)])),
+                ("Resources", Obj::dict(vec![("Font", Obj::dict(vec![("F1", Obj::Ref(4, 0))]))])),
+                ("Contents", Obj::Ref(5, 0)),
+            ]),
+        );
+        r.add(4, Obj::dict(vec![("Type", Obj::name("Font")), ("Subtype", Obj::name("Type1")), ("BaseFont", Obj::name("Helvetica")), ("Encoding", encoding)]));
+        r.add(5, Obj::stream(vec![], format!("BT /F1 12 Tf 72 720 Td <41{b:02X}42> Tj ET").into_bytes()));
+        let mut fb = FileBuilder::new(1);
+        fb.revisions.push(r);
+        fb.build().bytes
+    }
+
+    /// Ok(Some(text between A and B)), Ok(None) when the extracted text is not `A..B`.
+    pub fn shown_byte(e: Enc, as_dict: bool, b: u8) -> Result<Option<String>, String> {
+        let bytes = build(e, as_dict, b);
+        let text = vx::guard(|| -> Result<String, String> {
+            let doc = PdfReader::new(Cursor::new(bytes)).map(PdfDocument::new).map_err(|e| format!("open: {e}"))?;
+            let mut ex = TextExtractor::new();
+            ex.extract_from_page(&doc, 0).map(|t| t.text).map_err(|e| format!("extract: {e}"))
+        })
+        .map_err(|p| format!("panic: {p}"))??;
+        let t = text.trim_matches(|ch: char| ch == '\n' || ch == '\r' || ch == ' ');
+        Ok(t.strip_prefix('A').and_then(|x| x.strip_suffix('B')).map(|x| x.to_string()))
+    }
+}
